@@ -36,7 +36,7 @@ type mutexModel Mutex
 func (m *mutexModel) CanAcquire(vrt.OpKind) bool { return !m.held }
 
 //go:norace
-func (m *mutexModel) Acquire(vrt.OpKind) { m.held = true }
+func (m *mutexModel) Acquire(vrt.OpKind) bool { m.held = true; return true }
 
 func (m *mutexModel) Class() string { return vrt.ClassOf(unsafe.Pointer(m), "Mutex") }
 
@@ -76,6 +76,7 @@ type RWMutex struct {
 	writer   bool
 	readers  int
 	wwaiting int
+	direct   bool // the last Lock call acquired without waiting
 }
 
 type rwModel RWMutex
@@ -93,16 +94,27 @@ func (m *rwModel) CanAcquire(k vrt.OpKind) bool {
 }
 
 //go:norace
-func (m *rwModel) Acquire(k vrt.OpKind) {
+func (m *rwModel) Acquire(k vrt.OpKind) bool {
 	switch k {
 	case vrt.OpRLock:
 		m.readers++
+		return true
 	case vrt.OpWAnnounce:
+		// the Lock call begins: it takes the lock at once if it is free,
+		// otherwise it becomes a waiting writer (which excludes new readers)
+		if !m.writer && m.readers == 0 && m.wwaiting == 0 {
+			m.writer = true
+			m.direct = true
+			return true
+		}
 		m.wwaiting++
+		return false
 	case vrt.OpWLock:
 		m.wwaiting--
 		m.writer = true
+		return true
 	}
+	return false
 }
 
 func (m *rwModel) Class() string { return vrt.ClassOf(unsafe.Pointer(m), "RWMutex") }
@@ -114,14 +126,14 @@ func (m *RWMutex) Lock() {
 		m.writer = true
 		return
 	}
-	if m.writer || m.readers > 0 {
-		// contended: announcing the writer is its own step, so that both
-		// orders (reader first / writer first) are explored
-		vrt.LockPoint(vrt.OpWAnnounce, unsafe.Pointer(m), (*rwModel)(m))
+	// the call itself is a scheduling point (always enabled); it either
+	// acquires the free lock or turns into a waiting writer
+	vrt.LockPoint(vrt.OpWAnnounce, unsafe.Pointer(m), (*rwModel)(m))
+	if m.direct {
+		m.direct = false
 	} else {
-		m.wwaiting++
+		vrt.LockPoint(vrt.OpWLock, unsafe.Pointer(m), (*rwModel)(m))
 	}
-	vrt.LockPoint(vrt.OpWLock, unsafe.Pointer(m), (*rwModel)(m))
 	m.mu.Lock()
 }
 
@@ -194,7 +206,7 @@ type onceModel Once
 func (o *onceModel) CanAcquire(vrt.OpKind) bool { return !o.running }
 
 //go:norace
-func (o *onceModel) Acquire(vrt.OpKind) {}
+func (o *onceModel) Acquire(vrt.OpKind) bool { return false }
 
 func (o *onceModel) Class() string { return "Once" }
 
@@ -235,7 +247,7 @@ type wgModel WaitGroup
 func (w *wgModel) CanAcquire(vrt.OpKind) bool { return w.n == 0 }
 
 //go:norace
-func (w *wgModel) Acquire(vrt.OpKind) {}
+func (w *wgModel) Acquire(vrt.OpKind) bool { return false }
 
 func (w *wgModel) Class() string { return "WaitGroup" }
 
